@@ -158,6 +158,7 @@ func runSession(r *core.Run) {
 	if c.Prob(1, 30) {
 		dispatchRetention(r, proto)
 	}
+	dispatchAnyType(r, proto)
 	if len(window) == 0 {
 		return
 	}
@@ -428,6 +429,47 @@ func runSession(r *core.Run) {
 		}
 	}
 	_ = bytes.Equal
+}
+
+// dispatchAnyType: every PDU the package can encode - responses with arbitrary field values included, not only the
+// requests of the window and the empty responses generated for them - is mapped back to its type by the dispatcher.
+func dispatchAnyType(r *core.Run, proto *spec.Proto) {
+	c := r.C
+	for k, n := 0, 1+c.Intn(4); k < n; k++ {
+		pd := proto.PDUs[c.Intn(len(proto.PDUs))]
+		m := spec.Gen(c, pd, spec.GenOpt{MaxDests: 2, BinNoNul: true, MaxBody32: 60, BigTLV: c.Prob(1, 10)})
+		site := pd.Site()
+		pdu := ToGo(m)
+		var b []byte
+		var err error
+		if p := r.Call(site+".IEncode", func() { b, err = pdu.IEncode() }); p != nil || err != nil {
+			continue
+		}
+		_, cmd, _, ok := headerBits(proto, b)
+		if !ok {
+			continue
+		}
+		var back protocol.PDU
+		if p := r.Call("Decode"+proto.Name, func() { back, err = dispatcher[proto.Name](b) }); p != nil {
+			r.Fail("C10", "panic", p.Frame, p.Kind, "dispatcher on an encoded %s: %s", site, p.Value)
+			return
+		}
+		if err != nil || back == nil {
+			if errors.Is(err, protocol.ErrUnsupportedPacket) {
+				r.Fail("C10", "dispatch", site, "unsupported", "the dispatcher does not know command id %#x although %s encodes it", cmd, site)
+			} else {
+				r.Fail("C10", "dispatch", site, "refused", "the dispatcher refuses a %d-octet %s that the package itself encoded: %v", len(b), site, err)
+			}
+			continue
+		}
+		if typeSite(back) != site {
+			r.Fail("C10", "dispatch", site, "wrong-type", "command id %#x was decoded as %s", cmd, typeSite(back))
+			continue
+		}
+		if got := back.GetCommand().ToUint32(); got != cmd {
+			r.Fail("C10", "command", site, "decoded", "decoded from command id %#x, GetCommand() reports %#x", cmd, got)
+		}
+	}
 }
 
 // dispatchRetention: a receiver keeps PDUs the dispatcher gave it (a keep-alive it has not answered yet, a submit
